@@ -11,6 +11,7 @@ import importlib
 import json
 import multiprocessing as mp
 import os
+import re
 import pkgutil
 import sys
 import time
@@ -423,6 +424,7 @@ def report(pid, tier, seed, results, lemma_res, extra_results, checker_errors, t
     for ob in violations:
         rp = ob.get("replay") or {}
         fname = "%s-%s-%s.json" % (pid, (ob.get("function") or "x").replace(":", "_").replace(".", "_"), ob["name"].replace("/", "_").replace(":", "_").replace(" ", "_")[:80])
+        fname = re.sub(r"[^A-Za-z0-9_.#@=+\-]", "_", fname)  # no blanks or shell characters in the path printed on the VIOLATION line
         path = os.path.join(ROOT, "replays", fname)
         doc = dict(property=pid, function=ob.get("function"), obligation=ob["name"], kind=ob.get("kind"), line=ob.get("line"), clause=ob.get("note"), solver_status=ob["status"], backend=ob.get("backend"), replay=rp)
         with open(path, "w") as f:
